@@ -285,6 +285,19 @@ def run_c03(job):
         r = safe(lambda: enc.process(json.loads(json.dumps(m['json'])), wire_template_data=False).serialized_bytes)
         if r[0] != 'ok':
             continue
+        # decode(encode(x)) gives x back: missing stays missing, grid values exactly, strings padded, in both storage modes
+        dd = safe(lambda: dec.process(r[1], wire_template_data=False).template_data.value.decoded_values_all_subsets)
+        if dd[0] != 'ok':
+            t.violation('C03.roundtrip', 'the encoder output does not decode: %r' % (dd[1],), msg_input(m), key='C03.roundtrip.gen.fail|' + keyof(m, dd[1]))
+        else:
+            for i, (got, given) in enumerate(zip(dd[1], m['values'])):
+                kk = next((k2 for k2, (a, b) in enumerate(zip(got, given)) if not O.input_val_eq(b, a if not isinstance(a, (int, float)) or isinstance(a, bool) else a)
+                           and not (isinstance(a, (int, float)) and isinstance(b, (int, float)) and O.json_val_eq(a, b))), None)
+                if kk is not None or len(got) != len(given):
+                    t.violation('C03.roundtrip', '%s message, subset %d, value %r: given %r, reads back %r' % (
+                        'compressed' if m['compressed'] else 'uncompressed', i, kk, given[kk] if kk is not None else None, got[kk] if kk is not None else None),
+                        msg_input(m), key='C03.roundtrip.gen|' + keyof(m, 'value'))
+                    break
         e1 = fix(r[1], 'generated', msg_key(m))
         # re-encoding the rendering of a message that the encoder produced gives the identical bytes
         if e1 is not None and e1 != r[1]:
